@@ -8,7 +8,8 @@ import ho
 import runner
 from framework import Outcome
 
-FUNCS = ("AddOne", "Accum", "AddKey", "TickAfter", "FailOn", "Add2", "Chain")
+FUNCS = ("AddOne", "Accum", "AddKey", "TickAfter", "FailOn", "Add2", "Chain", "PulseFail")
+FAILING = ("FailOn", "PulseFail")
 
 
 def map_model(sc, fspec, end):
@@ -102,12 +103,12 @@ class C10:
     assumptions = ["removal and re-insertion of one key inside a single cycle is not generated here (known finding F6 concerns that path)",
                    "the per-key solo reference is the Python model of the library function (sim/ho.py FnModel), not a second engine run"]
 
-    def gen(self, seed):
+    def gen(self, seed, funcs=FUNCS):
         rng = random.Random(seed)
         end = rng.choice((10, 16, 24))
-        f = rng.choice(FUNCS)
+        f = rng.choice(funcs)
         big = rng.random() < 0.12
-        writers = [ho.gen_tsd_writer(rng, 1, end, pool=rng.choice((3, 5, 8)), magic=666 if f == "FailOn" else None, big=big)]
+        writers = [ho.gen_tsd_writer(rng, 1, end, pool=rng.choice((3, 5, 8)), magic=666 if f in FAILING else None, big=big)]
         spec = dict(fn=f, d=1)
         stmt = "map 10 fn=%s d=1" % f
         if f == "Add2":
@@ -120,7 +121,7 @@ class C10:
                 spec["b"] = 3
                 stmt += " b=3"
         stmts = [stmt, "cons 11 10"]
-        if f == "FailOn":
+        if f in FAILING:
             stmts.append("maperr 12 10")
         return dict(sc=dict(window=(0, end), writers=writers, stmts=stmts), spec=spec)
 
@@ -172,7 +173,7 @@ class C10:
             removed = {int(k) for k in g.get("removed", [])}
             stats["keys_removed"] += len(removed)
             last = val
-        if not v and spec["fn"] == "FailOn":
+        if not v and spec["fn"] in FAILING:
             seen = {}
             for e in res.events:
                 if e["k"] == "errs":
@@ -187,7 +188,7 @@ class C10:
         h_start = sum(1 for e in res.events if e["k"] == "h" and e["e"] == "start")
         h_stop = sum(1 for e in res.events if e["k"] == "h" and e["e"] == "stop")
         stats["child_graph_instances"] = sum(1 for e in res.events if e["k"] == "gstart" and e["g"] > 0)
-        if not v and spec["fn"] in ("Accum", "FailOn", "Chain"):
+        if not v and spec["fn"] in ("Accum", "FailOn", "Chain", "PulseFail"):
             if h_start != starts:
                 v = ("child_starts", "%d children started, %d key appearances in the model" % (h_start, starts))
             elif h_stop != h_start:
